@@ -155,6 +155,11 @@ def make_real(kind, rng, opt_name, n_valid=4):
         s = Solver1D(E.zero_ode, [IVP(0., 1.)], t_min=0., t_max=1., nets=nets, optimizer=mk_opt(nets), n_batches_valid=n_valid,
                      train_generator=Generator1D(8, 0., 1.), valid_generator=Generator1D(8, 0., 1., method='equally-spaced'))
         coords = [torch.linspace(0, 1, 5)]
+    elif kind == 'Solver1D-inf-valid':
+        nets = [FCNN(1, 1, hidden_units=(4,))]
+        s = Solver1D(E.ode_singular, [IVP(0., 1.)], t_min=0., t_max=1., nets=nets, optimizer=mk_opt(nets), n_batches_valid=max(n_valid, 1),
+                     train_generator=Generator1D(8, 0.1, 1.), valid_generator=Generator1D(8, 0., 1., method='equally-spaced'))
+        coords = [torch.linspace(0.1, 1, 5)]
     elif kind == 'Solver1D-ensemble':
         from neurodiffeq.conditions import EnsembleCondition
         nets = [FCNN(1, 2, hidden_units=(4,))]
@@ -189,16 +194,16 @@ def stream_real(rng, n, shim):
     bad, runs = [], 0
     stats = dict(save_ok=0, save_failed=0, loads=0)
     for i in range(n):
-        kind = rng.choice(['Solver1D', 'Solver1D-2eq', 'Solver2D', 'Bundle', 'Bundle-param', 'Solver1D-ensemble', 'Solver1D-zero-loss']) if i >= 3 \
-            else ['Solver1D-ensemble', 'Solver1D', 'Solver1D-zero-loss'][i]
-        opt = rng.choice(['SGD', 'Adam', 'ClipSGD']) if i >= 3 else ['SGD', 'ClipSGD', 'SGD'][i]
+        kind = rng.choice(['Solver1D', 'Solver1D-2eq', 'Solver2D', 'Bundle', 'Bundle-param', 'Solver1D-ensemble', 'Solver1D-zero-loss', 'Solver1D-inf-valid']) if i >= 4 \
+            else ['Solver1D-ensemble', 'Solver1D', 'Solver1D-zero-loss', 'Solver1D-inf-valid'][i]
+        opt = rng.choice(['SGD', 'Adam', 'ClipSGD']) if i >= 4 else ['SGD', 'ClipSGD', 'SGD', 'SGD'][i]
         ctx = dict(kind=kind, optimizer=opt, shim=shim)
         with warnings.catch_warnings():
             warnings.simplefilter('ignore')
             nv = rng.choice([4, 4, 1, 0])
             ctx['n_batches_valid'] = nv
             s, coords = make_real(kind, rng, opt, n_valid=nv)
-            s.fit(rng.randint(0, 4) if kind != 'Solver1D-zero-loss' else rng.randint(1, 3), tqdm_file=None)
+            s.fit(rng.randint(0, 4) if kind not in ('Solver1D-zero-loss', 'Solver1D-inf-valid') else rng.randint(1, 3), tqdm_file=None)
             if rng.random() < 0.5:      # a learning-rate schedule / manual decay after construction: part of the optimiser that is saved
                 for grp in s.optimizer.param_groups:
                     grp['lr'] = grp['lr'] * 0.37
@@ -249,9 +254,13 @@ def stream_real(rng, n, shim):
                     dill.settings['byref'] = True
                     cur.save(path=path)
                     cfg = SolverConfig()
-                    cfg.optimizer, cfg.optimizer_params = torch.optim.SGD, dict(lr=0.0125)
+                    empty_params = rng.random() < 0.5          # `optimizer_params={}`: the optimiser's own defaults
+                    cfg.optimizer, cfg.optimizer_params = torch.optim.SGD, ({} if empty_params else dict(lr=0.0125))
                     with contextlib.redirect_stdout(io.StringIO()):
                         l2 = type(cur).load(path=path, config=cfg)
+                    if l2.global_epoch != cur.global_epoch:
+                        bad.append(dict(ctx, violated='global epoch differs after load() with an optimiser class and parameters', got=l2.global_epoch,
+                                        want=cur.global_epoch, optimizer_params={} if empty_params else dict(lr=0.0125)))
                     stats['loads_with_optimizer_config'] = stats.get('loads_with_optimizer_config', 0) + 1
                     if l2.lowest_loss != cur.lowest_loss:
                         bad.append(dict(ctx, violated='lowest_loss not restored when load() is given an optimiser class and parameters',
@@ -259,7 +268,7 @@ def stream_real(rng, n, shim):
                     for k in ('train_loss', 'valid_loss'):
                         if list(l2.metrics_history[k]) != list(cur.metrics_history[k]):
                             bad.append(dict(ctx, violated=f'{k} history differs after load() with an optimiser class and parameters'))
-                    if not isinstance(l2.optimizer, torch.optim.SGD) or l2.optimizer.param_groups[0]['lr'] != 0.0125:
+                    if type(l2.optimizer) is not torch.optim.SGD or (not empty_params and l2.optimizer.param_groups[0]['lr'] != 0.0125):
                         bad.append(dict(ctx, violated='load() did not build the requested optimiser', got=str(l2.optimizer)[:100]))
                 except Exception as e:
                     bad.append(dict(ctx, violated='load() with an optimiser class and parameters failed', error=f'{type(e).__name__}: {e}'))
@@ -310,6 +319,9 @@ def stream_real(rng, n, shim):
                     bad.append(dict(ctx, violated='loaded solver cannot continue training', error=f'{type(e).__name__}: {e}'))
                     break
                 vl = loaded.metrics_history['valid_loss']
+                if any(v is None for v in vl):
+                    bad.append(dict(ctx, violated='the validation-loss history of the loaded solver contains entries that are not numbers', history=vl[:6]))
+                    break
                 if vl and nv > 0 and loaded.lowest_loss != min(vl):
                     bad.append(dict(ctx, violated='after resuming, lowest_loss is not the minimum of the whole validation history',
                                     lowest=loaded.lowest_loss, minimum=min(vl)))
@@ -356,6 +368,50 @@ def overwrite_checks(rng):
         if os.path.exists(path):
             os.remove(path)
     return bad, n
+
+
+def float32_session_check(rng):
+    """a single-precision session (torch default dtype float32, several different batches per epoch): histories come back exactly"""
+    import dill
+    import torch
+    from neurodiffeq.solvers import Solver1D
+    from neurodiffeq.conditions import IVP
+    from neurodiffeq.networks import FCNN
+    from neurodiffeq.generators import Generator1D
+    from ..fixtures import c18_eqs as E
+    bad = []
+    prev = torch.get_default_dtype()
+    path = tempfile.mktemp(prefix='verif-c18-f32-')
+    dill.settings['byref'] = True
+    try:
+        torch.set_default_dtype(torch.float32)
+        torch.manual_seed(rng.randrange(1 << 30))
+        with warnings.catch_warnings():
+            warnings.simplefilter('ignore')
+            nets = [FCNN(1, 1, hidden_units=(4,))]
+            s = Solver1D(E.ode, [IVP(0., 1.)], t_min=0., t_max=1., nets=nets, optimizer=torch.optim.SGD(nets[0].parameters(), lr=0.01), n_batches_train=3,
+                         n_batches_valid=3, train_generator=Generator1D(8, 0., 1.), valid_generator=Generator1D(8, 0., 1.))
+            s.fit(3, tqdm_file=None)
+            before = {k: list(v) for k, v in s.metrics_history.items()}
+            s.save(path=path)
+            with contextlib.redirect_stdout(io.StringIO()):
+                l = Solver1D.load(path=path)
+        for k in ('train_loss', 'valid_loss'):
+            if list(l.metrics_history[k]) != before[k] or list(s.metrics_history[k]) != before[k]:
+                bad.append(dict(kind='Solver1D in a float32 session', violated=f'{k} history differs after save / load',
+                                saved=before[k], loaded=list(l.metrics_history[k])))
+        vl = l.metrics_history['valid_loss']
+        if vl and l.lowest_loss != min(vl):
+            bad.append(dict(kind='Solver1D in a float32 session', violated='lowest_loss of the loaded solver is not the minimum of its validation history',
+                            lowest=l.lowest_loss, minimum=min(vl)))
+    except Exception as e:
+        bad.append(dict(kind='Solver1D in a float32 session', violated='save / load raised', error=f'{type(e).__name__}: {e}'))
+    finally:
+        torch.set_default_dtype(prev)
+        dill.settings['byref'] = False
+        if os.path.exists(path):
+            os.remove(path)
+    return bad
 
 
 def checkpoint_stream(rng, n):
@@ -441,6 +497,7 @@ def check(tier, seed):
     k_bad, k_stats = checkpoint_stream(rng, 4 if tier == 'quick' else 30)
     bad += [dict(stream='checkpoint-callback', **b) for b in k_bad]
     o_bad, o_runs = overwrite_checks(rng)
+    bad += [dict(stream='float32-session', **b) for b in float32_session_check(rng)]
     bad += [dict(stream='same-path', **b) for b in o_bad]
     n_ops = sum(len(l) for l, _ in scripts)
     rep.coverage.update(programs=len(scripts) + b_runs + c_runs, traces_validated_against_impl=len(scripts) - len(mism),
